@@ -264,7 +264,7 @@ def make_detector(spec):
     return cls(**kw)
 
 
-def run_detector(spec, X, prior=None):
+def run_detector(spec, X, prior=None, fit_on=None):
     """-> ("ok", detections, final score or None) | ("raise", message, None).  detections: sorted list of ints /
     [start, end] / [start, end, sorted columns].  prior: data the same detector object was fitted to and used on before."""
     try:
@@ -274,7 +274,7 @@ def run_detector(spec, X, prior=None):
                 det.fit(prior).predict(prior)
             except Exception:
                 det = make_detector(spec)
-        det = det.fit(X)
+        det = det.fit(X if fit_on is None else fit_on)      # fit_on: training data other than the data the detections are made on
         y = det.predict(X)
         if spec["detector"] in ("PELT", "MovingWindow", "SeededBinarySegmentation"):
             out = [int(v) for v in y["ilocs"]]
@@ -491,6 +491,17 @@ def check_detector(rec, obs, spec, X, label, t, base, record=True):
         rec.violation(f"{name}:{tlabel(t)}" + (":columns" if what == "affected columns" else ""),
                       f"{name}({spec['kwargs']}) on n={n},p={p}: {what} {out} on X (stable under 1e-7 perturbations) but {o2} on the "
                       f"transformed X ({t}); expected {want}", "C12.detector", inp)
+    elif t["type"] == "perm" and p >= 2:
+        # the same with labelled frames: the detector fitted on the frame of X is asked about the frame whose columns (labels travelling
+        # with them) are permuted; what it learnt in fit depends on the shape only, so the detections are those of the permuted data
+        import pandas as pd
+        df = pd.DataFrame(np.asarray(X), columns=[f"v{j}" for j in range(p)])
+        s3, o3, _ = run_detector(spec, df.iloc[:, list(t["perm"])], fit_on=df)
+        if s3 != "ok" or o3 != want:
+            rec.violation(f"{name}:{tlabel(t)}:fitted-on-original",
+                          f"{name}({spec['kwargs']}) on n={n},p={p}: fitted on the labelled frame of X it reports {out} for X, but "
+                          f"{o3 if s3 == 'ok' else 'raises ' + str(o3)} for the frame with the columns permuted ({t}); expected {want}",
+                          "C12.detector", inp)
 
 
 def reversal_observation(obs, spec, X, base):
@@ -579,7 +590,7 @@ def run(tier="quick", seed=0, repo="/repo"):
     return rec.result(RULE, "scorer level: n in {5,7} (thorough 4..8), p in 1..3, every admissible cut, all column permutations, "
                             "shifts in [-10,10]^p, scales {0.5,3}, reversal; detector level: n in 12..30 (thorough 10..30), p in 1..3, "
                             "6 detectors x small hyper-parameter grids, 1-2 permutations + one shift + one scale + reversal (PELT) per "
-                            "configuration; data seeded", exhaustive=False,
+                            "configuration; data seeded, float64 and (every third configuration / one transform per scorer) int64; the object that scores the transformed data was fitted to and used on the original data before", exhaustive=False,
                       observations=obs.d, scorer_level_evaluations=n_scorer, detector_level_evaluations=rec.evaluations - n_scorer)
 
 
